@@ -24,7 +24,8 @@ CASE_FUEL = 200000
 
 def run_case(case, ctx):
     ivs = [tuple(x) for x in case["ivs"]]
-    m = {k: "v%d" % i for i, k in enumerate(ivs)}
+    # values are arbitrary objects: None and falsy ones among them (a lookup that returns None is a hit, not a miss)
+    m = {k: [None, "v%d" % i, 0, "", False, "v%d" % i][i % 6] for i, k in enumerate(ivs)}
     uniq = list(m)
     valid = all(s <= e for s, e in uniq) and all(not (a[0] <= b[1] and b[0] <= a[1]) for a, b in itertools.combinations(uniq, 2))
     try:
